@@ -421,9 +421,57 @@ def _digits(fmt: str) -> int:
     return n + 1 if m.group(2) in "eE" else n
 
 
+def check_constructor_config(rep, repo):
+    """OPF.__init__: a matrix file was given  <=>  the flag is True and the matrix is read from THAT file; otherwise the
+    flag is False and no matrix is kept. The selector sites trust these two fields."""
+    from ..ir import facts, mk_not
+    fi = repo.need_method("OPF", "__init__")
+    w = Walker(repo, fi, self_class="OPF", inline=lambda f: False)
+    pf = ("param", "pre_computed_distance")
+    flag = ("attr", ("self",), "pre_computed_distance")
+    bpf = ("call", ("builtin", "bool"), (pf,), ())
+    given = [pf, bpf, ("cmp", "is not", pf, ("const", None)), mk_not(("cmp", "is", pf, ("const", None)))]
+    absent = [mk_not(pf), mk_not(bpf), ("cmp", "is", pf, ("const", None)), ("not", pf)]
+
+    def under(e, alts):
+        fs = facts(e.guards)
+        return len(fs) == 1 and fs[0] in alts
+
+    st = [e for e in w.events if e.kind == "store" and e.target == flag]
+    on = [e for e in st if e.value == ("const", True) and under(e, given)]
+    off = [e for e in st if e.value == ("const", False) and under(e, absent)]
+    direct = [e for e in st if not e.guards and e.value in (("call", ("builtin", "bool"), (pf,), ()),)]
+    ok = (len(on) == 1 and len(off) == 1 and len(st) == 2) or (len(direct) == 1 and len(st) == 1)
+    if len(direct) == 1 and len(st) == 1:
+        # the flag itself (just set to bool(file)) may be what later statements test
+        given.append(flag)
+        absent += [mk_not(flag), ("not", flag)]
+    rep.fn("INIT-flag", fi, "pre_computed_distance is True exactly when a matrix file was given", ok,
+           f"stores to the flag: {[e.text()[:60] for e in st]}")
+    rd = [e for e in w.events if e.kind == "call" and e.name == "_read_distances" and e.target == ("attr", ("self",), "_read_distances")]
+    okr = len(rd) == 1 and rd[0].args == (pf,) and under(rd[0], given)
+    rep.fn("INIT-read", fi, "the matrix is read from the given file when (and only when) one was given", okr,
+           f"_read_distances calls: {[e.text()[:70] for e in rd]}")
+    none = [e for e in w.events if e.kind == "store" and e.target == ("attr", ("self",), "pre_distances")]
+    okn = all(e.value == ("const", None) and under(e, absent) for e in none)
+    rep.fn("INIT-matrix", fi, "no matrix is kept when no file was given", okn and len(none) <= 1,
+           f"stores to pre_distances: {[e.text()[:60] for e in none]}")
+    # _read_distances stores what it loaded
+    fr = repo.need_method("OPF", "_read_distances")
+    wr = Walker(repo, fr, self_class="OPF", inline=lambda f: f.cls == "OPF" and f.name.startswith("_") and not f.name.startswith("__"))
+    stores = [e for e in wr.events if e.kind == "store" and e.target == ("attr", ("self",), "pre_distances")]
+    loaded = [e for e in wr.events if e.kind == "call" and e.name and (e.name.startswith("opfython.stream.loader.") or e.name in ("load_csv", "load_txt"))]
+    vals = {e.value for e in loaded}
+    oks = len(stores) == 1 and (stores[0].value in vals or stores[0].value[0] in ("sel", "call", "ret", "phi") or
+                                (stores[0].value[0] == "old" and stores[0].value[1] in vals))
+    rep.fn("INIT-store", fr, "_read_distances keeps the matrix it loaded", oks,
+           f"stores to pre_distances: {[e.text()[:70] for e in stores]}")
+
+
 def check(chk, repo):
     chk.explanation = EXPLANATION
     rep = Rep(chk, repo)
+    check_constructor_config(rep, repo)
     check_selectors(chk, rep, repo)
     check_row_ids(chk, rep, repo)
     check_builders(chk, rep, repo)
